@@ -8,7 +8,6 @@ NOT_APPLICABLE = {
     'C01': 'orthogonality/variance/reconstruction are floating-point identities over runtime data; no structural clause beyond bounds (C11) and thread partition (C13)',
     'C02': 'spectral correctness depends on eigen-gaps and a runtime convergence test; pinning the tolerance constant would be a frozen-source proxy',
     'C04': 'OLS limit, monotone RSS, beta/score agreement and affine equivariance are numerical relations between runs',
-    'C07': 'least-squares optimality, equivariance and R2/SDEC values are numerical; only bounds are structural and they are covered under C11',
     'C09': 'equivalence of two iterative algorithms up to tolerance is numerical; guard and bounds clauses are covered under C10/C11',
     'C17': 'greedy optimality, equality of two implementations\' outputs and centroid/label optimality are value-level; partition and termination are C13/C18',
 }
@@ -31,6 +30,10 @@ CLAIMED = {
             'Discharges the history quantifier by induction: each of the ~90 container operations, from ANY argument state satisfying the container invariants, makes only in-extent accesses, uses/frees nothing after release, copies deeply and re-establishes the invariants with the updated counts; an unsigned local initialised with a difference (size - 1) never wraps; out-of-range index arguments reach an error path before any subscript. Also decides that every newly exposed cell (in storage the operation allocated) is stored to before return, so no cell below the counts is indeterminate. Which value a cell gets (old value preserved / zero), allocator failure and string contents are NOT decided.',
             'Trusted: clang AST; container invariants assumed at entry and re-proved at exit; distinct parameters do not alias; LP64. UNDECIDED obligations are counted in the evidence and never alarm.',
             'DESIGN.md 2/E1, 3/C14, Appendix C'),
+    'C07': ('mlrcheck+matexpr+accum', 'other', 'cell-form extraction with symbolic loop indices (design matrix, predictor, residuals, R2/SDEC sums) unified with their definitions; call-sequence algebra over symbolic matrices for the solver; zeroed-output typestate for the accumulating product kernels',
+            'Decides in exact arithmetic: MLR builds the design matrix [1 | X]; for every response column the coefficient vector is OrdinaryLeastSquares(design, y_j) = (D\'D)^-1 D\'y_j, appended as column j (row 0 = intercept); hence the normal equations hold -- training residuals sum to zero and are orthogonal to every predictor, noise-free linear data are recovered, and the fit is equivariant to shifts/scalings of a response and to invertible re-mixing of the predictors; MLRPredictY computes intercept + X b for any matrix, residual = predicted - observed, R2 = 1 - RSS/TSS about the column mean of the observed response and SDEC = sqrt(RSS/n). NOT decided: the numerical accuracy of the Gauss-Jordan inverse on ill-conditioned X (condition numbers up to 1e4 are in the quantifier), R2 in [0,1] as a floating-point statement.',
+            'Trusted: clang AST; real arithmetic; X of full column rank (the property\'s premise) so that the inverse exists. Unrecognised loop shapes are ANALYSIS-BROKEN.',
+            'DESIGN.md 3/C07 (revised in 10.7), 10.6 (E16, E17, E15)'),
     'C19': ('dims+spline+simplex', 'other', 'units-of-measure inference (dimensions X^a Y^b, linear system over Q) plus statement-level computer algebra: array stores read as rational functions of symbolic cells with a symbolic index, recognition of the Thomas elimination / back-substitution recurrences, polynomial normalisation of the spline conditions; pairing typestate over the Nelder-Mead table; nothing is executed, no loop unrolled',
             'Decides in exact arithmetic: unit independence (dimensional homogeneity); the spline passes through every point, has a continuous second derivative, solves exactly the first-derivative-continuity system (one multiplier per eliminated row, covering back substitution, reads inside defined ranges), has zero second derivative at both ends, reproduces straight lines, and is evaluated as the cubic of the piece whose own range guard holds; every trapezoid term is the exact integral of its segment and the area is the plain sum over all consecutive segments (additive); in the simplex minimiser every stored value is the objective at its own row, the reported value is the objective at the returned point (row 0 after an ascending whole-row sort) and the best vertex is never overwritten, so the result is never worse than the best initial vertex. Floating-point rounding, non-increasing abscissae and convergence of the minimiser are NOT decided.',
             'Trusted: clang AST; seeds (column 0 = X, column 1 = Y, abscissa vector X, prediction Y); literal 0 polymorphic, other literals dimensionless under +,-,compare; sentinel tests against MISSING exempt; Thomas algorithm correctness and real arithmetic. A sweep/back-substitution shape that is not recognised is ANALYSIS-BROKEN (exit 2), never a pass.',
@@ -110,8 +113,9 @@ def build():
             'source_commits': [],
             'add_only': True,
         },
-        'engines': [{'name': e, 'path': 'lsv/%s.py' % e, 'serves_properties': sorted(ps),
-                     'kind_free_text': 'custom static analysis over the clang JSON AST of /repo/src (python3)'}
+        'engines': [{'name': e, 'path': 'lsv/%s.py' % e.split('+')[0], 'serves_properties': sorted(ps),
+                     'kind_free_text': 'custom static analysis over the clang JSON AST of /repo/src (python3)' +
+                                       ('; modules: ' + ', '.join('lsv/%s.py' % x for x in e.split('+')) if '+' in e else '')}
                     for e, ps in sorted(engines.items())],
         'checks': checks,
         'not_applicable': na,
